@@ -336,3 +336,51 @@ pub fn mint_fee_at(mint: &Account, epoch: u64) -> Option<(u16, u64)> {
 pub fn mint_decimals(mint: &Account) -> u8 {
     mint.data[44]
 }
+
+// ---------------- native stake account (spl-single-pool "sol pool") ----------------
+
+/// Byte offset of `delegation.stake` in a bincode `StakeStateV2::Stake` (u32 tag, 120-byte Meta,
+/// 32-byte voter key).
+pub const STAKE_DELEGATION_OFFSET: usize = 4 + 120 + 32;
+
+/// A native stake account in state `Stake` delegating `stake` lamports (200 bytes, the size the
+/// stake program allocates).  `tag` other than 2 produces the Uninitialized / Initialized /
+/// RewardsPool states for fault injection.
+pub fn stake_account(stake: u64, tag: u32) -> Account {
+    let mut data = vec![0u8; 200];
+    data[0..4].copy_from_slice(&tag.to_le_bytes());
+    // Meta.rent_exempt_reserve
+    data[4..12].copy_from_slice(&2_282_880u64.to_le_bytes());
+    data[STAKE_DELEGATION_OFFSET..STAKE_DELEGATION_OFFSET + 8].copy_from_slice(&stake.to_le_bytes());
+    // activation epoch 0, deactivation epoch u64::MAX, warmup rate 0.25 (deprecated field)
+    let o = STAKE_DELEGATION_OFFSET + 8;
+    data[o + 8..o + 16].copy_from_slice(&u64::MAX.to_le_bytes());
+    data[o + 16..o + 24].copy_from_slice(&0.25f64.to_le_bytes());
+    Account::new(stake.saturating_add(2_282_880), data, marginfi::constants::NATIVE_STAKE_ID)
+}
+
+/// `delegation.stake` of a stake account in state `Stake`, else None.
+pub fn parse_stake(data: &[u8]) -> Option<u64> {
+    if data.len() < STAKE_DELEGATION_OFFSET + 8 {
+        return None;
+    }
+    if u32::from_le_bytes(data[0..4].try_into().ok()?) != 2 {
+        return None;
+    }
+    Some(u64::from_le_bytes(
+        data[STAKE_DELEGATION_OFFSET..STAKE_DELEGATION_OFFSET + 8].try_into().ok()?,
+    ))
+}
+
+/// Supply of an SPL-Token (classic) mint.
+pub fn mint_supply(data: &[u8]) -> Option<u64> {
+    if data.len() < 45 {
+        return None;
+    }
+    Some(u64::from_le_bytes(data[36..44].try_into().ok()?))
+}
+pub fn set_mint_supply(data: &mut [u8], supply: u64) {
+    if data.len() >= 44 {
+        data[36..44].copy_from_slice(&supply.to_le_bytes());
+    }
+}
